@@ -296,6 +296,22 @@ pub fn observe_glob(id: u64, e: &str, sigma: &[u32], want: &Want, max_states: us
                 "post_dfa": no_table(), "re_prefix": [], "re_has_post": false, "re_post": [],
                 "rebuild": "none", "rebuild_dfa": no_table(), "rebuild_ncap": 0, "rebuild_caps": [],
             });
+            // the same partition of a glob that OWNS its expression text (into_owned, FromStr)
+            let mut variants = vec![("own", Some(glob.clone().into_owned()))];
+            variants.push(("par", e.parse::<Glob<'static>>().ok()));
+            for (tag, g) in variants {
+                let (ok, pre, has, txt) = match g {
+                    Some(g) => {
+                        let (pre, post) = g.partition();
+                        (true, cps(&pre.to_string_lossy()), post.is_some(), post.map_or_else(Vec::new, |p| cps(&p.to_string())))
+                    },
+                    None => (false, vec![], false, vec![]),
+                };
+                part[format!("{}_ok", tag)] = json!(ok);
+                part[format!("{}_prefix", tag)] = json!(pre);
+                part[format!("{}_has_post", tag)] = json!(has);
+                part[format!("{}_post", tag)] = json!(txt);
+            }
             if let Some(post) = post {
                 let text = post.to_string();
                 part["post"] = json!(cps(&text));
